@@ -9,12 +9,15 @@ response: one token per op joined by ';' then ';file:<hex|none>'
 -/
 import Molli.Util.Basic
 import Molli.Model.Ukv
+import Molli.Model.Backend
 namespace Molli.Driver.C02
-open Molli.Util Molli.Model.Ukv
+open Molli.Util Molli.Model.Ukv Molli.Model.Backend
 
 inductive XOp
   | op (o : Op)
   | cut (n : Nat)
+  | bop (o : BOp)
+  | probe
 
 def parseMode? : String → Option Mode
   | "r" => some .r | "a" => some .a | "w" => some .w | "x" => some .x | _ => none
@@ -36,6 +39,19 @@ def parseOp (s : String) : Option XOp :=
   | ["get", h, k] => do pure (.op (.get (← h.toNat?) (← bytesOfHex? k)))
   | ["keys", h] => do pure (.op (.keys (← h.toNat?)))
   | ["cut", n] => do pure (.cut (← n.toNat?))
+  | ["cnew", c, bs, ro, ow, cm] => do
+      pure (.bop (.cnew (← c.toNat?) (← bs.toInt?) (ro == "1") (ow == "1") (← bytesOfHex? cm)))
+  | ["begin", c, m] => do pure (.bop (.begin (← c.toNat?) (m == "w")))
+  | ["end", c] => do pure (.bop (.end_ (← c.toNat?)))
+  | ["cput", c, k, v] => do
+      let kb ← bytesOfHex? k
+      pure (.bop (.put (← c.toNat?) kb (← bytesOfHex? v) kb.length))
+  | ["cput", c, k, v, n] => do pure (.bop (.put (← c.toNat?) (← bytesOfHex? k) (← bytesOfHex? v) (← n.toNat?)))
+  | ["cget", c, k] => do pure (.bop (.get (← c.toNat?) (← bytesOfHex? k)))
+  | ["ckeys", c] => do pure (.bop (.keys (← c.toNat?)))
+  | ["cflush", c] => do pure (.bop (.flush (← c.toNat?)))
+  | ["endfault", c] => do pure (.bop (.endFault (← c.toNat?)))
+  | ["probe"] => some .probe
   | _ => none
 
 def errName : Err → String
@@ -55,18 +71,35 @@ def showOut : Out → String
   | .keys ks => "keys:" ++ ",".intercalate ((ks.mergeSort (fun a b => !bytesLt b a)).map hexTok)
   | .err e => "err:" ++ errName e
 
-def xstep (w : World) : XOp → World × String
-  | .op o => let (w', out) := step w o; (w', showOut out)
-  | .cut n => ({ file := w.file.map (·.take n), hs := fun _ => none }, "ok")
+def berrName : BErr → String
+  | .ukv e => errName e
+  | .readonly => "readonly" | .notFound => "not-found" | .badArgs => "bad-args"
+  | .keyExists => "key-exists" | .tooLong => "too-long" | .noBackend => "no-backend" | .noSession => "no-session"
+
+def showBOut : BOut → String
+  | .ok => "ok"
+  | .val b => "val:" ++ hexTok b
+  | .keys ks => "keys:" ++ ",".intercalate ((ks.mergeSort (fun a b => !bytesLt b a)).map hexTok)
+  | .err e => "err:" ++ berrName e
+
+def xstep (bw : BWorld) : XOp → BWorld × String
+  | .op o => let (w', out) := step bw.w o; ({ bw with w := w' }, showOut out)
+  | .cut n => ({ w := { file := bw.w.file.map (·.take n), hs := fun _ => none }, bs := fun _ => none }, "ok")
+  | .bop o => let (bw', out) := bstep bw o; (bw', showBOut out)
+  | .probe =>
+    -- what a second process sees: the complete records of the file
+    let kvs := match bw.w.file with | some f => absFile f | none => []
+    let sorted := kvs.mergeSort (fun a b => !bytesLt b.key a.key)
+    (bw, "lib:" ++ ",".intercalate (sorted.map (fun kv => hexTok kv.key ++ "=" ++ hexTok kv.val)))
 
 def handle (payload : String) : String :=
   let opsS := (payload.splitOn ";").filter (fun s => (words s) ≠ [])
   match opsS.mapM parseOp with
   | none => "err:bad-request"
   | some ops =>
-    let (w, outs) := ops.foldl (fun (acc : World × List String) o =>
-        let (w', s) := xstep acc.1 o; (w', s :: acc.2)) (initWorld, [])
-    let fileS := match w.file with | none => "none" | some f => hexTok f
+    let (bw, outs) := ops.foldl (fun (acc : BWorld × List String) o =>
+        let (w', s) := xstep acc.1 o; (w', s :: acc.2)) (initB, [])
+    let fileS := match bw.w.file with | none => "none" | some f => hexTok f
     ";".intercalate (outs.reverse ++ ["file:" ++ fileS])
 
 end Molli.Driver.C02
